@@ -99,6 +99,12 @@ def run_task(task):
         # fold the engine's classification into the trace so that TLC judges it too
         for (name, kind, what) in res.blocked:
             events.append({"ev": "BlockedAtEnd", "thr": name, "t": res.now, "s": kind, "x": str(what)})
+        if res.outcome == "max-steps":
+            # the step budget went to ONE thread while every other thread was blocked (virtual time cannot advance
+            # while somebody can run): a busy loop that nothing in the execution can end - reported like a blocked thread
+            name, nsteps, _at = getattr(res, "solo", (None, 0, 0))
+            if name is not None and nsteps >= 3000:
+                events.append({"ev": "BlockedAtEnd", "thr": name, "t": res.now, "s": "spin", "x": "busy loop"})
         codes = {"finished": 0, "stuck": 1, "horizon": 2, "max-steps": 3}
         events.append({"ev": "Outcome", "thr": "-", "t": res.now, "a": codes.get(res.outcome, 9), "s": res.outcome or ""})
         out = {"ok": res.failure is None, "failure": res.failure, "outcome": res.outcome,
